@@ -303,6 +303,10 @@ func Apply(ctx context.Context, rc *regclient.RegClient, rSrc ref.Ref, opts ...O
 					if dl.mod == unchanged {
 						dl.mod = replaced
 					}
+				} else if dl.mod == added && dl.newDesc.MediaType == "" {
+					// the added layer was pushed when it was created and no step changed it
+					_ = rdr.Close()
+					rdr = nil
 				}
 			}
 			// if added or replaced, and reader not nil, push blob
